@@ -15,6 +15,7 @@
 import ast
 
 from sa import core
+from sa import pat
 from sa import setalg
 from sa import tpl
 from sa.formula import atom, implies, equivalent, TRUE
@@ -106,19 +107,17 @@ def check(model, rep, tier):
   rep.check(o, 'SETSEL', '%s:state⊆modified' % fi.site,
             'only variables the block can change are carried',
             {'counterexample': cex}, line=fi.node.lineno, nontrivial=False)
-  WANT_MOD = {'visit_If': {'body_scope.bound', 'orelse_scope.bound'},
-              'visit_While': {'body_scope.bound'},
-              'visit_For': {'body_scope.bound', 'iter_scope.bound'}}
-  SCOPES = {'body_scope': 'BODY_SCOPE', 'orelse_scope': 'ORELSE_SCOPE',
-            'iter_scope': 'ITERATE_SCOPE'}
+  WANT_MOD = {'visit_If': {'BODY_SCOPE', 'ORELSE_SCOPE'},
+              'visit_While': {'BODY_SCOPE'},
+              'visit_For': {'BODY_SCOPE', 'ITERATE_SCOPE'}}
   for vn, want in WANT_MOD.items():
     h = cls.methods[vn]
+    hp = h.params()[0]
     calls = [c for c in ast.walk(h.node) if isinstance(c, ast.Call) and
              core.norm(c.func) == 'self._get_block_vars']
     ok = len(calls) == 1
     got = set()
     if ok:
-      e = calls[0].args[1]
       parts = []
 
       def flat(x):
@@ -126,18 +125,14 @@ def check(model, rep, tier):
           flat(x.left)
           flat(x.right)
         else:
-          parts.append(core.norm(x))
+          parts.append(tpl.xnorm(h, x, calls[0]))
 
-      flat(e)
-      got = set(parts)
-      ok = want <= got and core.norm(calls[0].args[0]) == 'node'
-      rd = tpl.rdefs(h.node)
-      for p in want:
-        sv = p.split('.')[0]
-        ds = rd.reaching(calls[0], sv) or []
-        ok = ok and len(ds) == 1 and not isinstance(ds[0], tuple) and \
-            ('annos.NodeAnno.%s' % SCOPES[sv]) in core.norm(ds[0]) and \
-            'anno.getanno(node' in core.norm(ds[0])
+      flat(calls[0].args[1])
+      for t in parts:
+        for k in ('BODY_SCOPE', 'ORELSE_SCOPE', 'ITERATE_SCOPE'):
+          if t == 'anno.getanno(%s, annos.NodeAnno.%s).bound' % (hp, k):
+            got.add(k)
+      ok = want <= got and core.norm(calls[0].args[0]) == hp
     rep.check(ok, 'SETSEL', '%s:modified-covers-all-blocks' % h.site,
               'the set of possibly modified names must unite the bound names of '
               'every block of the statement (%s)' % sorted(want), {'passed': sorted(got)},
@@ -183,8 +178,10 @@ def check(model, rep, tier):
     ok = len(nl) == 1 and len(asg) == 1 and isinstance(asg[0].targets[0], ast.Tuple) \
         and core.norm(nl[0].args[0]) == core.norm(asg[0].targets[0].elts[0])
     used = [s for s in sites if s.fi.node is h.node and 'nonlocal_declarations' in s.kwargs]
-    ok = ok and all(core.norm(u.kwargs['nonlocal_declarations']) ==
-                    'nonlocal_declarations' for u in used) and bool(used)
+    ok = ok and bool(used)
+    for u in used:
+      x = tpl.expand(h, u.kwargs['nonlocal_declarations'], u.call, depth=1)
+      ok = ok and (x is nl[0] or core.norm(x) == core.norm(nl[0]))
     rep.check(ok, 'TPL-NONLOCAL', '%s:declarations-from-state-list' % h.site,
               'the nonlocal/global declarations must be built from the state '
               'list computed for this statement', line=h.node.lineno)
@@ -195,19 +192,25 @@ def check(model, rep, tier):
     return {'self.state[_Function].scope.globals': 'FN.globals',
             'vars_': 'VARS'}.get(t)
 
+  cparam = cnd.params()[0]
+
+  def at(e):
+    t = core.norm(e)
+    return {'self.state[_Function].scope.globals': 'FN.globals',
+            cparam: 'VARS'}.get(t)
+
   ev2 = setalg.Ev(model, cnd, at)
-  rets, env = ev2.run({'vars_': setalg.SetV(atom('VARS'))})
-  gv = env.get('global_vars')
-  nv = env.get('nonlocal_vars')
+  rets, env = ev2.run({cparam: setalg.SetV(atom('VARS'))})
+  n1, b1 = pat.first(cnd.node, 'ast.Global([str(_V_) for _V_ in _G_])')
+  n2, b2 = pat.first(cnd.node, 'ast.Nonlocal([str(_V_) for _V_ in _N_])')
+  gv = env.get(b1['_G_']) if b1 else None
+  nv = env.get(b2['_N_']) if b2 else None
   ok = isinstance(gv, setalg.SetV) and isinstance(nv, setalg.SetV)
   cex = None
   if ok:
     o1, c1 = equivalent(gv.f, atom('VARS') & atom('FN.globals'))
     o2, c2 = equivalent(nv.f, atom('VARS') & ~atom('is_composite') & ~atom('FN.globals'))
     ok, cex = o1 and o2, c1 or c2
-  src = core.norm(cnd.node)
-  ok = ok and 'ast.Global([str(v) for v in global_vars])' in src and \
-      'ast.Nonlocal([str(v) for v in nonlocal_vars])' in src
   rep.check(ok, 'TPL-NONLOCAL', '%s:global-vs-nonlocal-split' % cnd.site,
             'state variables the function declares global get a `global` '
             'declaration, every other simple state variable a `nonlocal` one; '
@@ -234,9 +237,9 @@ def check(model, rep, tier):
               'the control variable', line=f.node.lineno,
               witness='for ... with break: the flag would not be live / state')
   cfor = cls.methods['visit_For']
-  src = core.norm(cfor.node)
-  ok = 'extra_test = anno.getanno(node, anno.Basic.EXTRA_LOOP_TEST)' in src and \
-      'extra_test_expr=extra_test' in src
+  et = [st for st in sites if st.fi.node is cfor.node and 'extra_test_expr' in st.kwargs]
+  ok = len(et) == 1 and tpl.xnorm(cfor, et[0].kwargs['extra_test_expr'], et[0].call) \
+      == 'anno.getanno(%s, anno.Basic.EXTRA_LOOP_TEST)' % cfor.params()[0]
   rep.check(ok, 'HIDDEN-TEST', '%s:emits-extra-test' % cfor.site,
             'the hidden test must be emitted as the extra_test callback',
             line=cfor.node.lineno)
